@@ -402,13 +402,14 @@ impl PartitionStorage for FilePartitionStorage {
                     )
                 })
                 .map_err(|_| IggyError::CannotReadFile)?;
-            let offset = file
-                .read_u64_le()
-                .await
-                .with_error_context(|error| {
-                    format!("{COMPONENT} (error: {error}) - failed to read consumer offset from file, path: {path}")
-                })
-                .map_err(|_| IggyError::CannotReadFile)?;
+            let offset = file.read_u64_le().await;
+            if offset.is_err() {
+                // The file is overwritten on every store, so after a crash it can be empty or partially written.
+                // Such an offset is ignored (as if it had not been stored) instead of failing the whole partition.
+                error!("Cannot read the consumer offset from file: {path}, the offset will be ignored.");
+                continue;
+            }
+            let offset = offset.unwrap();
 
             consumer_offsets.push(ConsumerOffset {
                 kind,
